@@ -8,4 +8,5 @@ CONSTANTS
   GapSet = "g3"
   CaseGapSet = "g2"
   FileKind = "xgo"
-INVARIANTS TypeOK IdsOnce StmtStart Monotone DocAdjacent Balanced DeviationsNamed HelpersDeclared Export
+  RelBases = {"same"}
+INVARIANTS TypeOK IdsOnce StmtStart Monotone DocAdjacent Balanced DeviationsNamed HelpersDeclared RelCorrect Export
